@@ -113,6 +113,9 @@ Proof.
     destruct (hinc_items_valid node items st V) as [V1 T1].
     destruct (hinc_items st node items) as [st1 oe]. cbn [fst] in *. split; assumption.
   - split; [exact V|reflexivity].
+  - destruct (get_or_create_valid st pid V) as (V1 & T1 & _).
+    destruct (get_or_create st pid) as [st1 k]. cbn [fst] in *. split; assumption.
+  - split; [exact V|reflexivity].
   - split; [exact V|reflexivity].
 Qed.
 
@@ -187,6 +190,10 @@ Proof.
   unfold build_index, reg_pools in B. cbn in SP.
   destruct oe as [e'|]; rewrite B in SP; [|discriminate]. injection SP as <-. reflexivity.
 Qed.
+
+(* a read-only query changes nothing at all *)
+Lemma query_changes_nothing st q : fst (hstep st (HQuery q)) = st.
+Proof. reflexivity. Qed.
 
 (* the regrouping identity from any state: re-index, generate, read back = the pools of the registry *)
 Lemma regroup_from_state st : reg_valid st -> pools_wf (st_type st) (reg_pools st) = true ->
